@@ -86,7 +86,7 @@ class Check:
             'what': f'a call into the code under test did not return within {e.info.get("seconds", "?")} s (the specification gives it a result)',
             'where': where, 'vector': vec, 'context': ctxt[:2000] if vec is None else None}))
 
-    ABORT_ASPECT = {'obj': 'C06.abort', 'parse': 'C03.abort', 'parse_bytes': 'C03.abort', 'nest': 'C03.abort', 'print': 'C13.abort',
+    ABORT_ASPECT = {'obj': 'C06.abort', 'parse': 'C03.abort', 'parse_bytes': 'C03.abort', 'nest': 'C03.abort', 'nestb': 'C03.abort', 'print': 'C13.abort',
                     'wide': 'C13.abort', 'canon': 'C09.abort', 'uneq': 'C15.abort', 'ser': 'C16.abort', 'de': 'C16.abort', 'sj': 'C18.abort',
                     'conv': 'C11.abort', 'fragiter': 'C11.abort', 'kind_set': 'C20.abort', 'kind_ops': 'C20.abort', 'kind_iter': 'C20.abort', 'access': 'C20.abort', 'macro': 'C19.abort'}
 
@@ -367,6 +367,7 @@ def c01(ctx):
     files = parser_trees(ctx, STRICT_TREES + SURR_TREES) + byte_trees(ctx) + parser_graph(ctx)
     # long inputs (hundreds of kilobytes) of multi-byte characters straddling the 64 KiB marks, through the slice entry point
     files.append(nest_families(ctx, 'StraddleFamilies')['out'])
+    files.append(nest_bytes(ctx)['out'])
     ctx.replay(files, ['C01.'])
     parser_trace(ctx, ['C01.'])
     sweeps(ctx, ['raw_str', 'raw_key', 'esc_ascii', 'esc_u', 'esc_pair', 'esc_pair2', 'esc_hexchar', 'ctx'], 'C01.sweep',
@@ -395,7 +396,7 @@ def c05(ctx):
 
 
 def c07(ctx):
-    files = parser_trees(ctx, STRICT_TREES + SURR_TREES) + byte_trees(ctx) + parser_graph(ctx)
+    files = parser_trees(ctx, STRICT_TREES + SURR_TREES) + byte_trees(ctx) + parser_graph(ctx) + [nest_bytes(ctx)['out']]
     ctx.replay(files, ['C07.'])
     parser_trace(ctx, ['C07.'])
     # every scalar in 15 syntactic contexts (after a number, inside a literal, after a key ...): the error offset and character
@@ -410,6 +411,12 @@ def c12(ctx):
     parser_trace(ctx, ['C12.'])
     sweeps(ctx, ['esc_u', 'esc_pair', 'raw_str', 'esc_ascii'], 'C12.sweep',
            'outcome of an escape / escape pair under the lenient options differs from the specification (run-compressed exhaustive sweep)')
+
+
+def nest_bytes(ctx):
+    """long byte inputs with one ill-formed sequence after hundreds of kilobytes (slice entry point)"""
+    depths = '{1000, 70000, 200000}' if ctx.quick else '{1000, 65530, 70000, 200000, 1000000}'
+    return ctx.mc(f'nestbytes_{ctx.tier}', 'MC_NestBytes', {'Depths': depths}, {'NMax': 8}, ['Affine', 'Dump'], spec='NSpec', workers=4)
 
 
 def nest_families(ctx, families='AllAndLength'):
